@@ -23,19 +23,21 @@ import (
 const Mod = "github.com/Oneledger/protocol"
 
 type Program struct {
-	RepoDir  string
-	Fset     *token.FileSet
-	Pkgs     []*packages.Package // root packages
-	AllPkgs  map[string]*packages.Package
-	SSA      *ssa.Program
-	Fns      map[*ssa.Function]bool // all functions (ssautil.AllFunctions)
-	byName   map[string]*ssa.Function
-	cg       *callgraph.Graph
-	chaCG    *callgraph.Graph
-	out      map[*ssa.Function][]*ssa.Function // repo-internal + leaf library callees (VTA)
-	TypeErrs []string
-	LoadS    float64
-	Patterns []string
+	RepoDir   string
+	Fset      *token.FileSet
+	Pkgs      []*packages.Package // root packages
+	AllPkgs   map[string]*packages.Package
+	SSA       *ssa.Program
+	Fns       map[*ssa.Function]bool // all functions (ssautil.AllFunctions)
+	Inlined   []string               // new helper functions dissolved into their callers (inline.go)
+	Dissolved []string               // new helpers no longer analysed on their own
+	byName    map[string]*ssa.Function
+	cg        *callgraph.Graph
+	chaCG     *callgraph.Graph
+	out       map[*ssa.Function][]*ssa.Function // repo-internal + leaf library callees (VTA)
+	TypeErrs  []string
+	LoadS     float64
+	Patterns  []string
 
 	roots            map[string]*ssa.Function // ABCI role -> closure
 	regTypes         map[string]bool
@@ -105,6 +107,7 @@ func Load(repo string, patterns []string) *Program {
 	prog.Build()
 	p.SSA = prog
 	p.Fns = ssautil.AllFunctions(prog)
+	p.Inlined = p.inlineNewHelpers()
 	p.byName = map[string]*ssa.Function{}
 	for fn := range p.Fns {
 		if inRepo(fn) {
